@@ -288,17 +288,6 @@ theorem inv2_handleAE {s : Sys N} (h0 : Inv0 s) (h1 : Inv1 s) (h : Inv2 s) (j sr
       have := (h0.vote_durable t' y c hv).1
       omega
 
-theorem inv2_step {s s' : Sys N} (h0 : Inv0 s) (h1 : Inv1 s) (h : Inv2 s) (st : Step s s') : Inv2 s' := by
-  cases st with
-  | timeout i hr => exact inv2_timeout h0 h1 h i
-  | updateTerm i t ht => exact inv2_updateTerm h i t ht
-  | grant j c t li lt hm ht hv hu => exact inv2_grant h0 h1 h j c t li lt hm ht hu
-  | becomeLeader i Q hq hc hQ => exact inv2_becomeLeader h0 h1 h i Q hq hc hQ
-  | clientReq i v hl => exact inv2_clientReq h0 h1 h i v hl
-  | sendAE i prev cnt hl hp => exact inv2_sendAE h i prev cnt
-  | handleAE j src t prev pt ents cm hm ht hnl hmatch => exact inv2_handleAE h0 h1 h j src t prev pt ents cm hm ht hmatch
-  | advanceCommit i k Q hl hk hterm hq hQ => exact inv2_advanceCommit h i k
-  | restart i => exact inv2_restart h i
 
 /-- (k,t) is quorum-acked: the entry at k was created in term t (Figure-8 restriction) and a majority stored it in term t -/
 def QAc (llog : Nat → Log) (acks : Nat → Fin N → Nat → Prop) (k t : Nat) : Prop :=
@@ -737,7 +726,251 @@ theorem inv3_handleAE {s : Sys N} (h0 : Inv0 s) (h1 : Inv1 s) (h2 : Inv2 s) (h :
     · exact h.aec t' src' prev' pt' ents' cm' hm'
     · cases hm'
 
-theorem inv3_step {s s' : Sys N} (h0 : Inv0 s) (h1 : Inv1 s) (h2 : Inv2 s) (h : Inv3 s) (st : Step s s') : Inv3 s' := by
+/-! ## the three extra etcd steps (non-reject append response below the commit index, heartbeats) and Inv4 -/
+
+/-- in a term that has a leader, a node of that term holds its committed prefix inside the leader's log -/
+theorem commit_in_leader {s : Sys N} (h0 : Inv0 s) (h1 : Inv1 s) (h2 : Inv2 s) (h3 : Inv3 s) (j : Fin N) {t : Nat}
+    (ht : (s.nodes j).term = t) {src : Fin N} (hl : s.isLdr t src) :
+    (s.nodes j).commit ≤ (s.llog t).length ∧ (s.nodes j).log.take (s.nodes j).commit = (s.llog t).take (s.nodes j).commit := by
+  obtain ⟨_, n1b⟩ := h3.n1 j
+  rcases n1b with z | ⟨k1, t1, c1, c2, c3, c4⟩
+  · rw [z]; simp
+  · by_cases he : t1 = t
+    · have := (h3.cm k1 t1 c1).2
+      rw [he] at this c4
+      exact ⟨by omega, c4⟩
+    · obtain ⟨p1, p2⟩ := committed_in_later_leader h0 h1 h2 h3 c1 (by omega : t1 < t) hl
+      refine ⟨by omega, ?_⟩
+      rw [c4]
+      have := congrArg (List.take (s.nodes j).commit) p2
+      rw [List.take_take, List.take_take, Nat.min_eq_left c2] at this
+      exact this.symm
+
+structure Inv4 (s : Sys N) : Prop where
+  at_    : ∀ t j n, s.acks t j n → (s.nodes j).term = t → n ≤ (s.nodes j).log.length ∧ (s.nodes j).log.take n = (s.llog t).take n
+  hbok   : ∀ t src dst c, s.msgs (.hb t src dst c) → s.isLdr t src ∧
+             (c = 0 ∨ ((∃ n, c ≤ n ∧ s.acks t dst n) ∧ ∃ k t0, s.cmt k t0 ∧ c ≤ k ∧ t0 ≤ t ∧ (s.llog t).take c = (s.llog t0).take c))
+  respok : ∀ t j i n, s.msgs (.aeResp t j i true n) → s.acks t j n
+
+/-! ### Inv1 for the new steps -/
+
+theorem inv1_of_same_acks {s : Sys N} (h : Inv1 s) (i : Fin N) (x : NodeSt N)
+    (hterm : x.term = (s.nodes i).term) (hlog : x.log = (s.nodes i).log)
+    (hrole : x.role = (s.nodes i).role ∨ x.role = .follower)
+    (msgs' : Msg N → Prop) (hmsgs : ∀ t c li lt, msgs' (.rv t c li lt) → s.msgs (.rv t c li lt))
+    (acks' : Nat → Fin N → Nat → Prop)
+    (hacks : ∀ t y n, acks' t y n → n ≤ (s.llog t).length ∧ t ≤ (s.nodes y).term ∧ ∃ l, s.isLdr t l) :
+    Inv1 { s with nodes := upd s.nodes i x, msgs := msgs', acks := acks' } := by
+  have hT : ∀ k, (upd s.nodes i x k).term = (s.nodes k).term := by
+    intro k; by_cases hki : k = i
+    · subst hki; simp [hterm]
+    · simp only [upd_other _ _ hki]
+  have hL : ∀ k, (upd s.nodes i x k).log = (s.nodes k).log := by
+    intro k; by_cases hki : k = i
+    · subst hki; simp [hlog]
+    · simp only [upd_other _ _ hki]
+  refine ⟨?_, h.ldr_pos, ?_, h.tm_llog, h.el, ?_, ?_, h.clog_tm, h.clog_p, ?_, ?_⟩
+  · intro k hk
+    rw [hT]
+    by_cases hki : k = i
+    · subst hki
+      simp only [upd_same] at hk
+      rcases hrole with hr | hr
+      · exact h.cand_pos k (by rw [← hr]; exact hk)
+      · exact absurd hr hk
+    · simp only [upd_other _ _ hki] at hk; exact h.cand_pos k hk
+  · intro k m h1 h2
+    rw [hL] at h2 ⊢; rw [hT]; exact h.tm_node k m h1 h2
+  · intro k hk
+    rw [hL, hT]
+    by_cases hki : k = i
+    · subst hki
+      simp only [upd_same] at hk
+      rcases hrole with hr | hr
+      · exact h.cand_log k (by rw [← hr]; exact hk)
+      · rw [hr] at hk; cases hk
+    · simp only [upd_other _ _ hki] at hk; exact h.cand_log k hk
+  · intro t c li lt hm
+    obtain ⟨a, b, c'⟩ := h.rv_ok t c li lt (hmsgs _ _ _ _ hm)
+    exact ⟨a, b, by rw [hT]; exact c'⟩
+  · intro t y n ha
+    obtain ⟨a, b, c⟩ := hacks t y n ha
+    exact ⟨a, by rw [hT]; exact b, c⟩
+  · intro t y c hv
+    rw [hT]; exact h.vote_cand t y c hv
+
+theorem inv1_ackCommitted {s : Sys N} (h0 : Inv0 s) (h1 : Inv1 s) (h2 : Inv2 s) (h3 : Inv3 s) (j src : Fin N)
+    (t prev pt : Nat) (ents : Log) (cm : Nat) (hm : s.msgs (.ae t src prev pt ents cm)) (ht : (s.nodes j).term = t) :
+    Inv1 (doAckCommitted s j src t) := by
+  have hl := (h0.ae_ok _ _ _ _ _ _ hm).1
+  have hc := commit_in_leader h0 h1 h2 h3 j ht hl
+  have := inv1_of_same_acks h1 j { (s.nodes j) with role := .follower } rfl rfl (Or.inr rfl)
+    (fun m => s.msgs m ∨ m = .aeResp t j src true (s.nodes j).commit)
+    (by intro t' c li lt hm'; rcases hm' with hm' | hm'; exact hm'; cases hm')
+    (fun t' j' n => s.acks t' j' n ∨ (t' = t ∧ j' = j ∧ n = (s.nodes j).commit))
+    (by
+      intro t' y n ha
+      rcases ha with ha | ⟨rfl, rfl, rfl⟩
+      · exact h1.ack_ok t' y n ha
+      · exact ⟨hc.1, by omega, src, hl⟩)
+  simpa [doAckCommitted] using this
+
+theorem inv1_sendHB {s : Sys N} (h : Inv1 s) (i dst : Fin N) (c : Nat) : Inv1 (doSendHB s i dst c) := by
+  unfold doSendHB
+  refine ⟨h.cand_pos, h.ldr_pos, h.tm_node, h.tm_llog, h.el, h.cand_log, ?_, h.clog_tm, h.clog_p, h.ack_ok, h.vote_cand⟩
+  intro t c' li lt hm
+  rcases hm with hm | hm
+  · exact h.rv_ok t c' li lt hm
+  · cases hm
+
+theorem inv1_handleHB {s : Sys N} (h : Inv1 s) (j : Fin N) (c : Nat) : Inv1 (doHandleHB s j c) := by
+  have := inv1_of_same_acks h j { (s.nodes j) with role := .follower, commit := max (s.nodes j).commit c } rfl rfl
+    (Or.inr rfl) s.msgs (fun _ _ _ _ h => h) s.acks h.ack_ok
+  simpa [doHandleHB] using this
+
+theorem inv1_step {s s' : Sys N} (h0 : Inv0 s) (h1 : Inv1 s) (h2 : Inv2 s) (h3 : Inv3 s) (st : Step s s') : Inv1 s' := by
+  cases st with
+  | timeout i hr => exact inv1_timeout h0 h1 i
+  | updateTerm i t ht => exact inv1_updateTerm h1 i t ht
+  | grant j c t li lt hm ht hv hu => exact inv1_grant h1 j c t li lt hm
+  | becomeLeader i Q hq hc hQ => exact inv1_becomeLeader h0 h1 i Q hq hc hQ
+  | clientReq i v hl => exact inv1_clientReq h0 h1 i v hl
+  | sendAE i prev cnt hl hp => exact inv1_sendAE h1 i prev cnt
+  | handleAE j src t prev pt ents cm hm ht hnl hmatch => exact inv1_handleAE h0 h1 j src t prev pt ents cm hm ht hnl hmatch
+  | advanceCommit i k Q hl hk hterm hq hQ => exact inv1_advanceCommit h1 i k
+  | restart i => exact inv1_restart h1 i
+  | ackCommitted j src t prev pt ents cm hm ht hnl hlt => exact inv1_ackCommitted h0 h1 h2 h3 j src t prev pt ents cm hm ht
+  | sendHB i dst c hl hc hack => exact inv1_sendHB h1 i dst c
+  | handleHB j src t c hm ht hnl => exact inv1_handleHB h1 j c
+
+/-! ### Inv2 for the new steps -/
+
+theorem inv2_ackCommitted {s : Sys N} (h0 : Inv0 s) (h1 : Inv1 s) (h2 : Inv2 s) (h3 : Inv3 s) (j src : Fin N)
+    (t prev pt : Nat) (ents : Log) (cm : Nat) (hm : s.msgs (.ae t src prev pt ents cm)) (ht : (s.nodes j).term = t) :
+    Inv2 (doAckCommitted s j src t) := by
+  have hl := (h0.ae_ok _ _ _ _ _ _ hm).1
+  have hc := commit_in_leader h0 h1 h2 h3 j ht hl
+  have hc3 := (h3.n1 j).1
+  unfold doAckCommitted
+  have hT : ∀ y, (upd s.nodes j { (s.nodes j) with role := Role.follower } y).term = (s.nodes y).term := by
+    intro y; by_cases hy : y = j
+    · subst hy; simp
+    · simp only [upd_other _ _ hy]
+  have hL : ∀ y, (upd s.nodes j { (s.nodes j) with role := Role.follower } y).log = (s.nodes y).log := by
+    intro y; by_cases hy : y = j
+    · subst hy; simp
+    · simp only [upd_other _ _ hy]
+  refine ⟨?_, ?_, ?_⟩
+  · intro t1 y n k ha hk1 hk2 hk3
+    show Good s.llog (upd s.nodes j _ y).log t1 k ∨ Bad s.llog s.elog s.isLdr t1 k (upd s.nodes j _ y).term
+    rw [hT, hL]
+    rcases ha with ha | ⟨e1, e2, e3⟩
+    · exact h2.al t1 y n k ha hk1 hk2 hk3
+    · left
+      subst e1 e2 e3
+      have hk : k ≤ (s.nodes y).commit := hk2
+      refine ⟨by omega, ?_⟩
+      have := congrArg (List.take k) hc.2
+      rw [List.take_take, List.take_take, Nat.min_eq_left hk] at this
+      exact this
+  · intro t' y c t1 n k hv ha htt hk1 hk2 hk3
+    rcases ha with ha | ⟨e1, e2, _⟩
+    · exact h2.av t' y c t1 n k hv ha htt hk1 hk2 hk3
+    · exfalso
+      subst e1 e2
+      have := (h0.vote_durable t' y c hv).1
+      omega
+  · intro t' c hld y hy t1 n k ha htt hk1 hk2 hk3
+    rcases ha with ha | ⟨e1, e2, _⟩
+    · exact h2.eq t' c hld y hy t1 n k ha htt hk1 hk2 hk3
+    · exfalso
+      subst e1 e2
+      have hv := (h0.ldr_quorum t' c hld).2 y hy
+      have := (h0.vote_durable t' y c hv).1
+      omega
+
+theorem inv2_sendHB {s : Sys N} (h : Inv2 s) (i dst : Fin N) (c : Nat) : Inv2 (doSendHB s i dst c) := by
+  have := inv2_frame h s.nodes (fun m => s.msgs m ∨ m = .hb (s.nodes i).term i dst c) s.cmt (fun _ => rfl) (fun _ => Nat.le_refl _)
+  simpa [doSendHB] using this
+
+theorem inv2_handleHB {s : Sys N} (h : Inv2 s) (j : Fin N) (c : Nat) : Inv2 (doHandleHB s j c) := by
+  have := inv2_frame h (upd s.nodes j { (s.nodes j) with role := .follower, commit := max (s.nodes j).commit c }) s.msgs s.cmt
+    (by intro y; by_cases hy : y = j
+        · subst hy; simp
+        · simp only [upd_other _ _ hy])
+    (by intro y; by_cases hy : y = j
+        · subst hy; simp
+        · simp only [upd_other _ _ hy]; exact Nat.le_refl _)
+  simpa [doHandleHB] using this
+
+theorem inv2_step {s s' : Sys N} (h0 : Inv0 s) (h1 : Inv1 s) (h : Inv2 s) (h3 : Inv3 s) (st : Step s s') : Inv2 s' := by
+  cases st with
+  | timeout i hr => exact inv2_timeout h0 h1 h i
+  | updateTerm i t ht => exact inv2_updateTerm h i t ht
+  | grant j c t li lt hm ht hv hu => exact inv2_grant h0 h1 h j c t li lt hm ht hu
+  | becomeLeader i Q hq hc hQ => exact inv2_becomeLeader h0 h1 h i Q hq hc hQ
+  | clientReq i v hl => exact inv2_clientReq h0 h1 h i v hl
+  | sendAE i prev cnt hl hp => exact inv2_sendAE h i prev cnt
+  | handleAE j src t prev pt ents cm hm ht hnl hmatch => exact inv2_handleAE h0 h1 h j src t prev pt ents cm hm ht hmatch
+  | advanceCommit i k Q hl hk hterm hq hQ => exact inv2_advanceCommit h i k
+  | restart i => exact inv2_restart h i
+  | ackCommitted j src t prev pt ents cm hm ht hnl hlt => exact inv2_ackCommitted h0 h1 h h3 j src t prev pt ents cm hm ht
+  | sendHB i dst c hl hc hack => exact inv2_sendHB h i dst c
+  | handleHB j src t c hm ht hnl => exact inv2_handleHB h j c
+
+/-! ### Inv3 for the new steps -/
+
+theorem inv3_ackCommitted {s : Sys N} (h : Inv3 s) (j src : Fin N) (t : Nat) : Inv3 (doAckCommitted s j src t) := by
+  unfold doAckCommitted
+  let acks' : Nat → Fin N → Nat → Prop := fun t' j' n => s.acks t' j' n ∨ (t' = t ∧ j' = j ∧ n = (s.nodes j).commit)
+  refine ⟨?_, ?_, ?_⟩
+  · intro k t' hc'
+    obtain ⟨q, b⟩ := h.cm k t' hc'
+    show QAc s.llog acks' k t' ∧ k ≤ (s.llog t').length
+    exact ⟨q.mono rfl (fun j n ha => Or.inl ha), b⟩
+  · intro y
+    by_cases hy : y = j
+    · subst hy; simpa using h.n1 y
+    · simp only [upd_other _ _ hy]; exact h.n1 y
+  · intro t' src' prev pt ents cm hm
+    rcases hm with hm | hm
+    · exact h.aec t' src' prev pt ents cm hm
+    · cases hm
+
+theorem inv3_sendHB {s : Sys N} (h : Inv3 s) (i dst : Fin N) (c : Nat) : Inv3 (doSendHB s i dst c) := by
+  unfold doSendHB
+  refine ⟨h.cm, h.n1, ?_⟩
+  intro t' src' prev pt ents cm hm
+  rcases hm with hm | hm
+  · exact h.aec t' src' prev pt ents cm hm
+  · cases hm
+
+theorem inv3_handleHB {s : Sys N} (h1 : Inv1 s) (h : Inv3 s) (h4 : Inv4 s) (j src : Fin N) (t c : Nat)
+    (hm : s.msgs (.hb t src j c)) (ht : (s.nodes j).term = t) : Inv3 (doHandleHB s j c) := by
+  unfold doHandleHB
+  refine ⟨h.cm, ?_, h.aec⟩
+  intro y
+  by_cases hy : y = j
+  · subst hy
+    simp only [upd_same]
+    obtain ⟨n1a, n1b⟩ := h.n1 y
+    rcases Nat.le_total c (s.nodes y).commit with hle | hle
+    · rw [Nat.max_eq_left hle]; exact ⟨n1a, n1b⟩
+    · rw [Nat.max_eq_right hle]
+      obtain ⟨_, hb⟩ := h4.hbok t src y c hm
+      rcases hb with z | ⟨⟨n, hn, ha⟩, k, t0, c1, c2, c3, c4⟩
+      · subst z
+        have : (s.nodes y).commit = 0 := by omega
+        exact ⟨by omega, Or.inl rfl⟩
+      · obtain ⟨a1, a2⟩ := h4.at_ t y n ha ht
+        refine ⟨by omega, Or.inr ⟨k, t0, c1, c2, by omega, ?_⟩⟩
+        have := congrArg (List.take c) a2
+        rw [List.take_take, List.take_take, Nat.min_eq_left hn] at this
+        rw [this, c4]
+  · simp only [upd_other _ _ hy]; exact h.n1 y
+
+theorem inv3_step {s s' : Sys N} (h0 : Inv0 s) (h1 : Inv1 s) (h2 : Inv2 s) (h : Inv3 s) (h4 : Inv4 s) (st : Step s s') :
+    Inv3 s' := by
   cases st with
   | timeout i hr => exact inv3_timeout h i
   | updateTerm i t ht => exact inv3_updateTerm h i t ht
@@ -748,6 +981,353 @@ theorem inv3_step {s s' : Sys N} (h0 : Inv0 s) (h1 : Inv1 s) (h2 : Inv2 s) (h : 
   | handleAE j src t prev pt ents cm hm ht hnl hmatch => exact inv3_handleAE h0 h1 h2 h j src t prev pt ents cm hm ht hmatch
   | advanceCommit i k Q hl hk hterm hq hQ => exact inv3_advanceCommit h0 h i k Q hl hk hterm hq hQ
   | restart i => exact inv3_restart h i
+  | ackCommitted j src t prev pt ents cm hm ht hnl hlt => exact inv3_ackCommitted h j src t
+  | sendHB i dst c hl hc hack => exact inv3_sendHB h i dst c
+  | handleHB j src t c hm ht hnl => exact inv3_handleHB h1 h h4 j src t c hm ht
+
+/-! ### Inv4 along every step -/
+
+theorem inv4_frame {s : Sys N} (h1 : Inv1 s) (h : Inv4 s) (nodes' : Fin N → NodeSt N) (msgs' : Msg N → Prop)
+    (votes' : Nat → Fin N → Fin N → Prop) (clog' : Nat → Fin N → Log) (cmt' : Nat → Nat → Prop)
+    (hlog : ∀ y, (nodes' y).log = (s.nodes y).log) (hterm : ∀ y, (s.nodes y).term ≤ (nodes' y).term)
+    (hm1 : ∀ t a b c, msgs' (.hb t a b c) → s.msgs (.hb t a b c))
+    (hm2 : ∀ t a b n, msgs' (.aeResp t a b true n) → s.msgs (.aeResp t a b true n))
+    (hcmt : ∀ k t, s.cmt k t → cmt' k t) :
+    Inv4 { s with nodes := nodes', msgs := msgs', votes := votes', clog := clog', cmt := cmt' } := by
+  refine ⟨?_, ?_, ?_⟩
+  · intro t j n ha ht
+    show n ≤ (nodes' j).log.length ∧ (nodes' j).log.take n = (s.llog t).take n
+    rw [hlog]
+    have h2 := (h1.ack_ok t j n ha).2.1
+    have h3 := hterm j
+    have ht' : (nodes' j).term = t := ht
+    exact h.at_ t j n ha (by omega)
+  · intro t src dst c hm
+    obtain ⟨a, b⟩ := h.hbok t src dst c (hm1 _ _ _ _ hm)
+    refine ⟨a, ?_⟩
+    rcases b with z | ⟨b1, k, t0, c1, c2, c3, c4⟩
+    · exact Or.inl z
+    · exact Or.inr ⟨b1, k, t0, hcmt _ _ c1, c2, c3, c4⟩
+  · intro t j i n hm; exact h.respok t j i n (hm2 _ _ _ _ hm)
+
+theorem inv4_timeout {s : Sys N} (h1 : Inv1 s) (h : Inv4 s) (i : Fin N) : Inv4 (doTimeout s i) := by
+  have := inv4_frame h1 h (upd s.nodes i { (s.nodes i) with term := (s.nodes i).term + 1, vote := some i, role := .candidate })
+    (fun m => s.msgs m ∨ m = .rv ((s.nodes i).term + 1) i (s.nodes i).log.length (lastTerm (s.nodes i).log))
+    (fun t j c => s.votes t j c ∨ (t = (s.nodes i).term + 1 ∧ j = i ∧ c = i))
+    (fun t c => if t = (s.nodes i).term + 1 ∧ c = i then (s.nodes i).log else s.clog t c) s.cmt
+    (by intro y; by_cases hy : y = i
+        · subst hy; simp
+        · simp only [upd_other _ _ hy])
+    (by intro y; by_cases hy : y = i
+        · subst hy; simp
+        · simp only [upd_other _ _ hy]; exact Nat.le_refl _)
+    (by intro t a b c hm; rcases hm with hm | hm; exact hm; cases hm)
+    (by intro t a b n hm; rcases hm with hm | hm; exact hm; cases hm)
+    (fun _ _ h => h)
+  simpa [doTimeout] using this
+
+theorem inv4_updateTerm {s : Sys N} (h1 : Inv1 s) (h : Inv4 s) (i : Fin N) (t : Nat) (ht : (s.nodes i).term < t) :
+    Inv4 (doUpdateTerm s i t) := by
+  have := inv4_frame h1 h (upd s.nodes i { (s.nodes i) with term := t, vote := none, role := .follower }) s.msgs s.votes
+    s.clog s.cmt
+    (by intro y; by_cases hy : y = i
+        · subst hy; simp
+        · simp only [upd_other _ _ hy])
+    (by intro y; by_cases hy : y = i
+        · subst hy; simp; omega
+        · simp only [upd_other _ _ hy]; exact Nat.le_refl _)
+    (fun _ _ _ _ h => h) (fun _ _ _ _ h => h) (fun _ _ h => h)
+  simpa [doUpdateTerm] using this
+
+theorem inv4_restart {s : Sys N} (h1 : Inv1 s) (h : Inv4 s) (i : Fin N) : Inv4 (doRestart s i) := by
+  have := inv4_frame h1 h (upd s.nodes i { (s.nodes i) with role := .follower }) s.msgs s.votes s.clog s.cmt
+    (by intro y; by_cases hy : y = i
+        · subst hy; simp
+        · simp only [upd_other _ _ hy])
+    (by intro y; by_cases hy : y = i
+        · subst hy; simp
+        · simp only [upd_other _ _ hy]; exact Nat.le_refl _)
+    (fun _ _ _ _ h => h) (fun _ _ _ _ h => h) (fun _ _ h => h)
+  simpa [doRestart] using this
+
+theorem inv4_grant {s : Sys N} (h1 : Inv1 s) (h : Inv4 s) (j c : Fin N) (t : Nat) : Inv4 (doGrant s j c t) := by
+  have := inv4_frame h1 h (upd s.nodes j { (s.nodes j) with vote := some c })
+    (fun m => s.msgs m ∨ m = .rvResp t j c true)
+    (fun t' j' c' => s.votes t' j' c' ∨ (t' = t ∧ j' = j ∧ c' = c)) s.clog s.cmt
+    (by intro y; by_cases hy : y = j
+        · subst hy; simp
+        · simp only [upd_other _ _ hy])
+    (by intro y; by_cases hy : y = j
+        · subst hy; simp
+        · simp only [upd_other _ _ hy]; exact Nat.le_refl _)
+    (by intro t' a b c' hm; rcases hm with hm | hm; exact hm; cases hm)
+    (by intro t' a b n hm; rcases hm with hm | hm; exact hm; cases hm)
+    (fun _ _ h => h)
+  simpa [doGrant] using this
+
+theorem inv4_sendAE {s : Sys N} (h1 : Inv1 s) (h : Inv4 s) (i : Fin N) (prev cnt : Nat) : Inv4 (doSendAE s i prev cnt) := by
+  have := inv4_frame h1 h s.nodes (fun m => s.msgs m ∨
+      m = .ae (s.nodes i).term i prev (termAt (s.nodes i).log prev) (((s.nodes i).log.drop prev).take cnt) (s.nodes i).commit)
+    s.votes s.clog s.cmt (fun _ => rfl) (fun _ => Nat.le_refl _)
+    (by intro t' a b c' hm; rcases hm with hm | hm; exact hm; cases hm)
+    (by intro t' a b n hm; rcases hm with hm | hm; exact hm; cases hm)
+    (fun _ _ h => h)
+  simpa [doSendAE] using this
+
+theorem inv4_advanceCommit {s : Sys N} (h1 : Inv1 s) (h : Inv4 s) (i : Fin N) (k : Nat) : Inv4 (doAdvanceCommit s i k) := by
+  have := inv4_frame h1 h (upd s.nodes i { (s.nodes i) with commit := k }) s.msgs s.votes s.clog
+    (fun k' t => s.cmt k' t ∨ (k' = k ∧ t = (s.nodes i).term))
+    (by intro y; by_cases hy : y = i
+        · subst hy; simp
+        · simp only [upd_other _ _ hy])
+    (by intro y; by_cases hy : y = i
+        · subst hy; simp
+        · simp only [upd_other _ _ hy]; exact Nat.le_refl _)
+    (fun _ _ _ _ h => h) (fun _ _ _ _ h => h) (fun _ _ h => Or.inl h)
+  simpa [doAdvanceCommit] using this
+
+theorem inv4_handleHB {s : Sys N} (h1 : Inv1 s) (h : Inv4 s) (j : Fin N) (c : Nat) : Inv4 (doHandleHB s j c) := by
+  have := inv4_frame h1 h (upd s.nodes j { (s.nodes j) with role := .follower, commit := max (s.nodes j).commit c })
+    s.msgs s.votes s.clog s.cmt
+    (by intro y; by_cases hy : y = j
+        · subst hy; simp
+        · simp only [upd_other _ _ hy])
+    (by intro y; by_cases hy : y = j
+        · subst hy; simp
+        · simp only [upd_other _ _ hy]; exact Nat.le_refl _)
+    (fun _ _ _ _ h => h) (fun _ _ _ _ h => h) (fun _ _ h => h)
+  simpa [doHandleHB] using this
+
+theorem inv4_sendHB {s : Sys N} (h0 : Inv0 s) (h3 : Inv3 s) (h : Inv4 s) (i dst : Fin N) (c : Nat)
+    (hl : (s.nodes i).role = .leader) (hc : c ≤ (s.nodes i).commit)
+    (hack : c = 0 ∨ ∃ n, c ≤ n ∧ s.acks (s.nodes i).term dst n) : Inv4 (doSendHB s i dst c) := by
+  unfold doSendHB
+  refine ⟨h.at_, ?_, ?_⟩
+  · intro t src dst' c' hm
+    rcases hm with hm | hm
+    · exact h.hbok t src dst' c' hm
+    · cases hm
+      refine ⟨h0.ldr_role i hl, ?_⟩
+      by_cases hc0 : c = 0
+      · exact Or.inl hc0
+      · right
+        have ha : ∃ n, c ≤ n ∧ s.acks (s.nodes i).term dst n := by
+          rcases hack with z | ha
+          · exact absurd z hc0
+          · exact ha
+        refine ⟨ha, ?_⟩
+        have hlog := h0.ldr_log i hl
+        obtain ⟨_, n1b⟩ := h3.n1 i
+        rcases n1b with z | ⟨k, t0, c1, c2, c3, c4⟩
+        · omega
+        · refine ⟨k, t0, c1, by omega, c3, ?_⟩
+          rw [hlog] at c4
+          have := congrArg (List.take c) c4
+          rw [List.take_take, List.take_take, Nat.min_eq_left hc] at this
+          exact this
+  · intro t j i' n hm
+    rcases hm with hm | hm
+    · exact h.respok t j i' n hm
+    · cases hm
+
+theorem inv4_ackCommitted {s : Sys N} (h0 : Inv0 s) (h1 : Inv1 s) (h2 : Inv2 s) (h3 : Inv3 s) (h : Inv4 s) (j src : Fin N)
+    (t prev pt : Nat) (ents : Log) (cm : Nat) (hm : s.msgs (.ae t src prev pt ents cm)) (ht : (s.nodes j).term = t) :
+    Inv4 (doAckCommitted s j src t) := by
+  have hl := (h0.ae_ok _ _ _ _ _ _ hm).1
+  have hc := commit_in_leader h0 h1 h2 h3 j ht hl
+  have hc3 := (h3.n1 j).1
+  unfold doAckCommitted
+  have hT : ∀ y, (upd s.nodes j { (s.nodes j) with role := Role.follower } y).term = (s.nodes y).term := by
+    intro y; by_cases hy : y = j
+    · subst hy; simp
+    · simp only [upd_other _ _ hy]
+  have hL : ∀ y, (upd s.nodes j { (s.nodes j) with role := Role.follower } y).log = (s.nodes y).log := by
+    intro y; by_cases hy : y = j
+    · subst hy; simp
+    · simp only [upd_other _ _ hy]
+  refine ⟨?_, ?_, ?_⟩
+  · intro t1 y n ha hty
+    show n ≤ (upd s.nodes j _ y).log.length ∧ (upd s.nodes j _ y).log.take n = (s.llog t1).take n
+    rw [hL]
+    have hty' : (s.nodes y).term = t1 := by rw [← hT y]; exact hty
+    rcases ha with ha | ⟨e1, e2, e3⟩
+    · exact h.at_ t1 y n ha hty'
+    · subst e1 e2 e3; exact ⟨hc3, hc.2⟩
+  · intro t1 a b c hm'
+    rcases hm' with hm' | hm'
+    · obtain ⟨x1, x2⟩ := h.hbok t1 a b c hm'
+      refine ⟨x1, ?_⟩
+      rcases x2 with z | ⟨⟨n, hn, han⟩, rest⟩
+      · exact Or.inl z
+      · exact Or.inr ⟨⟨n, hn, Or.inl han⟩, rest⟩
+    · cases hm'
+  · intro t1 a b n hm'
+    rcases hm' with hm' | hm'
+    · exact Or.inl (h.respok t1 a b n hm')
+    · cases hm'; exact Or.inr ⟨rfl, rfl, rfl⟩
+
+theorem inv4_becomeLeader {s : Sys N} (h0 : Inv0 s) (h1 : Inv1 s) (h3 : Inv3 s) (h : Inv4 s) (i : Fin N) (Q : Finset (Fin N))
+    (hq : N < 2 * Q.card) (hc : (s.nodes i).role = .candidate)
+    (hQ : ∀ j ∈ Q, j = i ∨ s.msgs (.rvResp (s.nodes i).term j i true)) : Inv4 (doBecomeLeader s i Q) := by
+  obtain ⟨_, hfresh⟩ := fresh_term h0 i Q hq hc hQ
+  simp only [doBecomeLeader]
+  set t0 := (s.nodes i).term with ht0
+  set e : Entry := ⟨t0, 0⟩ with he
+  set nl := (s.nodes i).log ++ [e] with hnl
+  let llog' : Nat → Log := fun t => if t = t0 then nl else s.llog t
+  have hLsame : ∀ t, t ≠ t0 → llog' t = s.llog t := by intro t ht; simp [llog', ht]
+  have hackt : ∀ t y n, s.acks t y n → t ≠ t0 := by
+    intro t y n ha e'
+    obtain ⟨_, _, l, hl⟩ := h1.ack_ok t y n ha
+    subst e'; exact hfresh l hl
+  have hcmt : ∀ k t, s.cmt k t → t ≠ t0 := by
+    intro k t hc' e'
+    obtain ⟨l, hl⟩ := (h3.cm k t hc').1.has_leader h1
+    subst e'; exact hfresh l hl
+  have hT : ∀ y, (upd s.nodes i { (s.nodes i) with role := Role.leader, log := nl } y).term = (s.nodes y).term := by
+    intro y; by_cases hy : y = i
+    · subst hy; simp
+    · simp only [upd_other _ _ hy]
+  refine ⟨?_, ?_, fun t j i' n hm => Or.inl (h.respok t j i' n hm)⟩
+  · intro t y n ha hty
+    show n ≤ (upd s.nodes i _ y).log.length ∧ (upd s.nodes i _ y).log.take n = (llog' t).take n
+    have hty' : (s.nodes y).term = t := by rw [← hT y]; exact hty
+    rcases ha with ha | ⟨e1, e2, e3⟩
+    · rw [hLsame t (hackt t y n ha)]
+      obtain ⟨a1, a2⟩ := h.at_ t y n ha hty'
+      by_cases hy : y = i
+      · subst hy
+        simp only [upd_same]
+        exact ⟨by simp [hnl]; omega, by rw [hnl, List.take_append_of_le_length a1]; exact a2⟩
+      · simp only [upd_other _ _ hy]; exact ⟨a1, a2⟩
+    · subst e1 e2 e3
+      simp [llog']
+  · intro t src dst c hm
+    obtain ⟨x1, x2⟩ := h.hbok t src dst c hm
+    have ht : t ≠ t0 := by intro e'; subst e'; exact hfresh src x1
+    show (s.isLdr t src ∨ _) ∧ (c = 0 ∨ ((∃ n, c ≤ n ∧ (s.acks t dst n ∨ _)) ∧
+      ∃ k t0', s.cmt k t0' ∧ c ≤ k ∧ t0' ≤ t ∧ (llog' t).take c = (llog' t0').take c))
+    refine ⟨Or.inl x1, ?_⟩
+    rcases x2 with z | ⟨⟨n, hn, han⟩, k, t0', c1, c2, c3, c4⟩
+    · exact Or.inl z
+    · refine Or.inr ⟨⟨n, hn, Or.inl han⟩, k, t0', c1, c2, c3, ?_⟩
+      rw [hLsame t ht, hLsame t0' (hcmt k t0' c1)]; exact c4
+
+theorem inv4_clientReq {s : Sys N} (h0 : Inv0 s) (h1 : Inv1 s) (h3 : Inv3 s) (h : Inv4 s) (i : Fin N) (v : Nat)
+    (hl : (s.nodes i).role = .leader) : Inv4 (doClientReq s i v) := by
+  simp only [doClientReq]
+  set t0 := (s.nodes i).term with ht0
+  set e : Entry := ⟨t0, v⟩ with he
+  set nl := (s.nodes i).log ++ [e] with hnl
+  have hlog : (s.nodes i).log = s.llog t0 := h0.ldr_log i hl
+  let llog' : Nat → Log := fun t => if t = t0 then nl else s.llog t
+  have happ : llog' t0 = s.llog t0 ++ [e] := by simp [llog', hnl, hlog]
+  have hLsame : ∀ t, t ≠ t0 → llog' t = s.llog t := by intro t ht; simp [llog', ht]
+  have hpre : ∀ t k, k ≤ (s.llog t).length → (llog' t).take k = (s.llog t).take k := by
+    intro t k hk
+    by_cases ht : t = t0
+    · subst ht; rw [happ]; exact List.take_append_of_le_length hk
+    · rw [hLsame t ht]
+  have hT : ∀ y, (upd s.nodes i { (s.nodes i) with log := nl } y).term = (s.nodes y).term := by
+    intro y; by_cases hy : y = i
+    · subst hy; simp
+    · simp only [upd_other _ _ hy]
+  refine ⟨?_, ?_, fun t j i' n hm => Or.inl (h.respok t j i' n hm)⟩
+  · intro t y n ha hty
+    show n ≤ (upd s.nodes i _ y).log.length ∧ (upd s.nodes i _ y).log.take n = (llog' t).take n
+    have hty' : (s.nodes y).term = t := by rw [← hT y]; exact hty
+    rcases ha with ha | ⟨e1, e2, e3⟩
+    · rw [hpre t n (h1.ack_ok t y n ha).1]
+      obtain ⟨a1, a2⟩ := h.at_ t y n ha hty'
+      by_cases hy : y = i
+      · subst hy
+        simp only [upd_same]
+        exact ⟨by simp [hnl]; omega, by rw [hnl, List.take_append_of_le_length a1]; exact a2⟩
+      · simp only [upd_other _ _ hy]; exact ⟨a1, a2⟩
+    · subst e1 e2 e3
+      simp [llog']
+  · intro t src dst c hm
+    obtain ⟨x1, x2⟩ := h.hbok t src dst c hm
+    show s.isLdr t src ∧ (c = 0 ∨ ((∃ n, c ≤ n ∧ (s.acks t dst n ∨ _)) ∧
+      ∃ k t0', s.cmt k t0' ∧ c ≤ k ∧ t0' ≤ t ∧ (llog' t).take c = (llog' t0').take c))
+    refine ⟨x1, ?_⟩
+    rcases x2 with z | ⟨⟨n, hn, han⟩, k, t0', c1, c2, c3, c4⟩
+    · exact Or.inl z
+    · refine Or.inr ⟨⟨n, hn, Or.inl han⟩, k, t0', c1, c2, c3, ?_⟩
+      rw [hpre t c (by have := (h1.ack_ok t dst n han).1; omega), hpre t0' c (by have := (h3.cm k t0' c1).2; omega)]
+      exact c4
+
+theorem inv4_handleAE {s : Sys N} (h0 : Inv0 s) (h : Inv4 s) (j src : Fin N) (t prev pt : Nat) (ents : Log) (cm : Nat)
+    (hm : s.msgs (.ae t src prev pt ents cm)) (ht : (s.nodes j).term = t)
+    (hmatch : prev ≤ (s.nodes j).log.length ∧ termAt (s.nodes j).log prev = pt) :
+    Inv4 (doHandleAE s j src t prev ents cm) := by
+  unfold doHandleAE
+  obtain ⟨a1, a2, a3, a4⟩ := h0.ae_ok t src prev pt ents cm hm
+  have hlen := ents_len_le a2 a4
+  have hspec := follAppend_spec (n := ents.length) (h0.p_nodes j) (h0.p_llog t) hmatch.1 hlen (by rw [hmatch.2, a3])
+  rw [← a4] at hspec
+  obtain ⟨⟨hRlen, hRtake⟩, hRcases⟩ := hspec
+  have hT : ∀ y, (upd s.nodes j ⟨(s.nodes j).term, (s.nodes j).vote, .follower, follAppend (s.nodes j).log prev ents,
+      max (s.nodes j).commit (min cm (prev + ents.length))⟩ y).term = (s.nodes y).term := by
+    intro y; by_cases hy : y = j
+    · subst hy; simp
+    · simp only [upd_other _ _ hy]
+  refine ⟨?_, ?_, ?_⟩
+  · intro t1 y n ha hty
+    have hty' : (s.nodes y).term = t1 := by rw [← hT y]; exact hty
+    by_cases hy : y = j
+    · subst hy
+      simp only [upd_same]
+      have ht1 : t1 = t := by omega
+      subst ht1
+      rcases ha with ha | ⟨_, _, e3⟩
+      · obtain ⟨b1, b2⟩ := h.at_ t1 y n ha hty'
+        rcases hRcases with hsame | ⟨hnew, hdis⟩
+        · rw [hsame]; exact ⟨b1, b2⟩
+        · have hnm : n ≤ prev + ents.length := by
+            apply Classical.byContradiction
+            intro hlt
+            have hmk : prev + ents.length ≤ n := by omega
+            apply hdis
+            refine ⟨by omega, ?_⟩
+            have := congrArg (List.take (prev + ents.length)) b2
+            rw [List.take_take, List.take_take, Nat.min_eq_left hmk] at this
+            exact this
+          refine ⟨by omega, ?_⟩
+          rw [hnew, List.take_take, Nat.min_eq_left hnm]
+      · subst e3; exact ⟨hRlen, hRtake⟩
+    · simp only [upd_other _ _ hy]
+      rcases ha with ha | ⟨_, e2, _⟩
+      · exact h.at_ t1 y n ha hty'
+      · exact absurd e2 hy
+  · intro t1 a b c hm'
+    rcases hm' with hm' | hm'
+    · obtain ⟨x1, x2⟩ := h.hbok t1 a b c hm'
+      refine ⟨x1, ?_⟩
+      rcases x2 with z | ⟨⟨n, hn, han⟩, rest⟩
+      · exact Or.inl z
+      · exact Or.inr ⟨⟨n, hn, Or.inl han⟩, rest⟩
+    · cases hm'
+  · intro t1 a b n hm'
+    rcases hm' with hm' | hm'
+    · exact Or.inl (h.respok t1 a b n hm')
+    · cases hm'; exact Or.inr ⟨rfl, rfl, rfl⟩
+
+theorem inv4_step {s s' : Sys N} (h0 : Inv0 s) (h1 : Inv1 s) (h2 : Inv2 s) (h3 : Inv3 s) (h : Inv4 s) (st : Step s s') :
+    Inv4 s' := by
+  cases st with
+  | timeout i hr => exact inv4_timeout h1 h i
+  | updateTerm i t ht => exact inv4_updateTerm h1 h i t ht
+  | grant j c t li lt hm ht hv hu => exact inv4_grant h1 h j c t
+  | becomeLeader i Q hq hc hQ => exact inv4_becomeLeader h0 h1 h3 h i Q hq hc hQ
+  | clientReq i v hl => exact inv4_clientReq h0 h1 h3 h i v hl
+  | sendAE i prev cnt hl hp => exact inv4_sendAE h1 h i prev cnt
+  | handleAE j src t prev pt ents cm hm ht hnl hmatch => exact inv4_handleAE h0 h j src t prev pt ents cm hm ht hmatch
+  | advanceCommit i k Q hl hk hterm hq hQ => exact inv4_advanceCommit h1 h i k
+  | restart i => exact inv4_restart h1 h i
+  | ackCommitted j src t prev pt ents cm hm ht hnl hlt => exact inv4_ackCommitted h0 h1 h2 h3 h j src t prev pt ents cm hm ht
+  | sendHB i dst c hl hc hack => exact inv4_sendHB h0 h3 h i dst c hl hc hack
+  | handleHB j src t c hm ht hnl => exact inv4_handleHB h1 h j c
 
 /-! ## all reachable states -/
 
@@ -760,17 +1340,19 @@ inductive Reach : Sys N → Prop
 | init : Reach (init N)
 | step {s s'} : Reach s → Step s s' → Reach s'
 
-theorem reach_inv {s : Sys N} (r : Reach s) : Inv0 s ∧ Inv1 s ∧ Inv2 s ∧ Inv3 s := by
+theorem reach_inv {s : Sys N} (r : Reach s) : Inv0 s ∧ Inv1 s ∧ Inv2 s ∧ Inv3 s ∧ Inv4 s := by
   induction r with
   | init =>
-    refine ⟨?_, ?_, ?_, ?_⟩
+    refine ⟨?_, ?_, ?_, ?_, ?_⟩
     · refine ⟨?_, ?_, ?_, ?_, ?_, ?_, ?_, ?_, ?_, ?_, ?_, ?_⟩ <;> simp [init, PrefixOK]
     · refine ⟨?_, ?_, ?_, ?_, ?_, ?_, ?_, ?_, ?_, ?_, ?_⟩ <;> simp [init, PrefixOK] <;> intros <;> omega
     · refine ⟨?_, ?_, ?_⟩ <;> simp [init]
     · refine ⟨?_, ?_, ?_⟩ <;> simp [init]
+    · refine ⟨?_, ?_, ?_⟩ <;> simp [init]
   | step _ st ih =>
-    obtain ⟨h0, h1, h2, h3⟩ := ih
-    exact ⟨inv0_step h0 st, inv1_step h0 h1 st, inv2_step h0 h1 h2 st, inv3_step h0 h1 h2 h3 st⟩
+    obtain ⟨h0, h1, h2, h3, h4⟩ := ih
+    exact ⟨inv0_step h0 st, inv1_step h0 h1 h2 h3 st, inv2_step h0 h1 h2 h3 st, inv3_step h0 h1 h2 h3 h4 st,
+      inv4_step h0 h1 h2 h3 h4 st⟩
 
 /-- C15, abstract protocol, every cluster size, every schedule (loss, duplication, reordering, delay,
     partitions are all subsumed by "any sent message may be handled any number of times, or never"): -/
@@ -791,13 +1373,13 @@ theorem C15_log_matching {s : Sys N} (r : Reach s) (i j : Fin N) (k : Nat) (h1 :
 
 theorem C15_leader_completeness {s : Sys N} (r : Reach s) {k t t' : Nat} (c : s.cmt k t) (hlt : t < t') {l : Fin N}
     (hl : s.isLdr t' l) : k ≤ (s.llog t').length ∧ (s.llog t').take k = (s.llog t).take k := by
-  obtain ⟨h0, h1, h2, h3⟩ := reach_inv r
+  obtain ⟨h0, h1, h2, h3, _⟩ := reach_inv r
   exact committed_in_later_leader h0 h1 h2 h3 c hlt hl
 
 theorem C15_state_machine_safety {s : Sys N} (r : Reach s) (i j : Fin N) (m : Nat)
     (hi : m ≤ (s.nodes i).commit) (hj : m ≤ (s.nodes j).commit) :
     (s.nodes i).log.take m = (s.nodes j).log.take m := by
-  obtain ⟨h0, h1, h2, h3⟩ := reach_inv r
+  obtain ⟨h0, h1, h2, h3, _⟩ := reach_inv r
   exact state_machine_safety h0 h1 h2 h3 i j m hi hj
 
 /-- what a follower already considers committed survives every accepted append (etcd: the
@@ -806,46 +1388,32 @@ theorem handleAE_keeps_committed {s : Sys N} (h0 : Inv0 s) (h1 : Inv1 s) (h2 : I
     (t prev pt : Nat) (ents : Log) (cm : Nat)
     (hm : s.msgs (.ae t src prev pt ents cm)) (ht : (s.nodes j).term = t)
     (hmatch : prev ≤ (s.nodes j).log.length ∧ termAt (s.nodes j).log prev = pt) :
-    (s.nodes j).commit ≤ (follAppend (s.nodes j).log prev ents).length ∧
     (follAppend (s.nodes j).log prev ents).take (s.nodes j).commit = (s.nodes j).log.take (s.nodes j).commit := by
   obtain ⟨a1, a2, a3, a4⟩ := h0.ae_ok t src prev pt ents cm hm
   have hlen := ents_len_le a2 a4
   have hspec := follAppend_spec (n := ents.length) (h0.p_nodes j) (h0.p_llog t) hmatch.1 hlen (by rw [hmatch.2, a3])
   rw [← a4] at hspec
   obtain ⟨⟨hRlen, hRtake⟩, hRcases⟩ := hspec
-  obtain ⟨n1a, n1b⟩ := h.n1 j
+  have hag := commit_in_leader h0 h1 h2 h j ht a1
   rcases hRcases with hsame | ⟨hnew, hdis⟩
-  · rw [hsame]; exact ⟨n1a, rfl⟩
-  · rcases n1b with z | ⟨k1, t1, c1, c2, c3, c4⟩
-    · rw [z]; simp
-    · have hag : (s.nodes j).commit ≤ (s.llog t).length ∧
-          (s.nodes j).log.take (s.nodes j).commit = (s.llog t).take (s.nodes j).commit := by
-        by_cases he : t1 = t
-        · have := (h.cm k1 t1 c1).2
-          rw [he] at this c4
-          exact ⟨by omega, c4⟩
-        · obtain ⟨p1, p2⟩ := committed_in_later_leader h0 h1 h2 h c1 (by omega : t1 < t) a1
-          refine ⟨by omega, ?_⟩
-          rw [c4]
-          have := congrArg (List.take (s.nodes j).commit) p2
-          rw [List.take_take, List.take_take, Nat.min_eq_left c2] at this
-          exact this.symm
-      have hcm : (s.nodes j).commit ≤ prev + ents.length := by
-        by_contra hlt
-        have hmk : prev + ents.length ≤ (s.nodes j).commit := by omega
-        apply hdis
-        refine ⟨by omega, ?_⟩
-        have := congrArg (List.take (prev + ents.length)) hag.2
-        rw [List.take_take, List.take_take, Nat.min_eq_left hmk] at this
-        exact this
+  · rw [hsame]
+  · have hcm : (s.nodes j).commit ≤ prev + ents.length := by
+      apply Classical.byContradiction
+      intro hlt
+      have hmk : prev + ents.length ≤ (s.nodes j).commit := by omega
+      apply hdis
+      have hc := (h.n1 j).1
       refine ⟨by omega, ?_⟩
-      rw [hnew, List.take_take, Nat.min_eq_left hcm, hag.2]
+      have := congrArg (List.take (prev + ents.length)) hag.2
+      rw [List.take_take, List.take_take, Nat.min_eq_left hmk] at this
+      exact this
+    rw [hnew, List.take_take, Nat.min_eq_left hcm, hag.2]
 
 /-- per node, along every step: the committed prefix is never removed or rewritten, and term and commit never regress -/
 theorem C15_committed_never_rewritten {s s' : Sys N} (r : Reach s) (st : Step s s') (y : Fin N) :
     (s'.nodes y).log.take (s.nodes y).commit = (s.nodes y).log.take (s.nodes y).commit ∧
     (s.nodes y).commit ≤ (s'.nodes y).commit ∧ (s.nodes y).term ≤ (s'.nodes y).term := by
-  obtain ⟨h0, h1, h2, h3⟩ := reach_inv r
+  obtain ⟨h0, h1, h2, h3, _⟩ := reach_inv r
   have hc := (h3.n1 y).1
   cases st with
   | timeout i hr =>
@@ -873,7 +1441,7 @@ theorem C15_committed_never_rewritten {s s' : Sys N} (r : Reach s) (st : Step s 
     by_cases hy : y = j
     · subst hy
       simp only [doHandleAE, upd_same]
-      exact ⟨(handleAE_keeps_committed h0 h1 h2 h3 y src t prev pt ents cm hm ht hmatch).2, Nat.le_max_left _ _, by omega⟩
+      exact ⟨handleAE_keeps_committed h0 h1 h2 h3 y src t prev pt ents cm hm ht hmatch, Nat.le_max_left _ _, by omega⟩
     · simp [doHandleAE, upd_other _ _ hy]
   | advanceCommit i k Q hl hk hterm hq hQ =>
     by_cases hy : y = i
@@ -883,10 +1451,19 @@ theorem C15_committed_never_rewritten {s s' : Sys N} (r : Reach s) (st : Step s 
     by_cases hy : y = i
     · subst hy; simp [doRestart]
     · simp [doRestart, upd_other _ _ hy]
+  | ackCommitted j src t prev pt ents cm hm ht hnl hlt =>
+    by_cases hy : y = j
+    · subst hy; simp [doAckCommitted]
+    · simp [doAckCommitted, upd_other _ _ hy]
+  | sendHB i dst c hl hc' hack => simp [doSendHB]
+  | handleHB j src t c hm ht hnl =>
+    by_cases hy : y = j
+    · subst hy; simp [doHandleHB]
+    · simp [doHandleHB, upd_other _ _ hy]
 
-#print axioms C15_committed_never_rewritten
 #print axioms C15_election_safety
 #print axioms C15_log_matching
 #print axioms C15_leader_completeness
 #print axioms C15_state_machine_safety
+#print axioms C15_committed_never_rewritten
 end RS
